@@ -4,8 +4,8 @@
    floating-point Krylov iterations and is covered by the failing-input search of driver/c09.py only
    (which found the Krylov-breakdown class recorded in KNOWN_FINDINGS.txt / findings/C09-krylov-breakdown.md).
    The pre-repair BiCG and its refutation witness are in Legacy/C09Refuted.v (bicg_legacy_refuted). *)
-From Coq Require Import List Arith ZArith.
-From OV Require Import Base.Panic Base.Arith Model.Vector Model.Matrix Model.Sparse Model.Iter Inst.QcInst
+From Coq Require Import List Arith ZArith Floats.
+From OV Require Import Base.Panic Base.Arith Model.Vector Model.Matrix Model.Sparse Model.Iter Inst.QcInst Inst.FloatInst
   Proofs.Iter Proofs.IterField Proofs.IterInst.
 Import ListNotations.
 
@@ -65,3 +65,32 @@ Proof.
   split; [reflexivity|]. split; [reflexivity|].
   exact (@zipw_sub_self SAQ AQ_FieldLaws _).
 Qed.
+
+(* ANY arithmetic, floats included: whenever the start-up residual r = b - A x0 that the code forms passes
+   the code's own test (norm2 r / ||b||' <= tol), every solver -- the repaired BiCG included -- returns Ok 0
+   at once and x0 is untouched.  This is the floating-point face of exact_guess_ok0 (in f64 an exact guess
+   gives r = 0, norm 0, 0/||b||' = 0 <= tol); the pre-repair BiCG violates it (Legacy/C09Refuted.v). *)
+Theorem startup_accepts : forall (A : SArith) (mulA mulAT : list (T (SA A)) -> res (list (T (SA A)))) rows cols
+    sv b x0 max tol ax r e,
+  (forall itol, sv = BiCG itol -> itol = 1 \/ itol = 2) ->
+  guards rows cols b x0 = Ok tt -> mulA x0 = Ok ax -> vsub b ax = Ok r ->
+  div (norm2 r) (nz (norm2 b)) = Ok e -> leb e tol = true ->
+  exists g, run mulA mulAT rows cols sv b x0 max tol = Ok (IOk 0, x0, g).
+Proof. intros A mulA mulAT rows cols sv b x0 max tol ax r e Hit Hg Eax Er Ee Ht. exact (run_startup_accepts mulA mulAT rows cols sv b x0 max tol ax r e Hit Hg Eax Er Ee Ht). Qed.
+Check startup_accepts : forall (A : SArith) (mulA mulAT : list (T (SA A)) -> res (list (T (SA A)))) rows cols
+    sv b x0 max tol ax r e,
+  (forall itol, sv = BiCG itol -> itol = 1 \/ itol = 2) ->
+  guards rows cols b x0 = Ok tt -> mulA x0 = Ok ax -> vsub b ax = Ok r ->
+  div (norm2 r) (nz (norm2 b)) = Ok e -> leb e tol = true ->
+  exists g, run mulA mulAT rows cols sv b x0 max tol = Ok (IOk 0, x0, g).
+Print Assumptions startup_accepts.
+
+(* non-vacuity in f64: diag(2,3), b = (2,3), exact guess x0 = (1,1) -- the witness of the repaired defect *)
+Definition exf_s : sparse AF := @mkS AF 2 2 2 [2; 3]%float [0; 1] [0; 1; 2].
+Example startup_accepts_nonvacuous :
+  @guards SAF 2 2 [2; 3]%float [1; 1]%float = Ok tt /\
+  @sp_mul AF exf_s [1; 1]%float = Ok [2; 3]%float /\
+  @vsub AF [2; 3]%float [2; 3]%float = Ok [0; 0]%float /\
+  @div AF (@norm2 SAF [0; 0]%float) (@nz SAF (@norm2 SAF [2; 3]%float)) = Ok 0%float /\
+  @leb AF 0%float (Z.ldexp 1%float (-26)%Z) = true.
+Proof. repeat split; vm_compute; reflexivity. Qed.
